@@ -7,7 +7,8 @@
    lists, tuples, conditions, kind-disjoint unions; _partial), idempotence there, and that
    a typed value offered as data is accepted unchanged.  pane.types.Range and ValueOrList are recorded findings (known_findings.json). *)
 From Coq Require Import List String.
-Require Import Base.Outcome Model.Values Model.Vocab Model.Types Model.Conv Model.Into Lemmas.RoundTrip.
+Require Import Base.Outcome Model.Values Model.Vocab Model.Types Model.Conv Model.Into Lemmas.RoundTrip Lemmas.ClassRoundTrip.
+From Coq Require Import List.
 
 Definition convert_obj (t : ty) (x : pyval) : outcome pyval :=
   match into_auto x with Ok d => tc t d | Reject => Reject | Escape e => Escape e end.
@@ -34,3 +35,29 @@ Theorem C06_typed_value_is_accepted_unchanged_partial : forall t v x,
   rt_ty t -> tc t v = Ok x -> tc t x = Ok x.
 Proof. exact typed_self_core. Qed.
 Print Assumptions C06_typed_value_is_accepted_unchanged_partial.
+
+(* dataclass instances: convert(x, Cls) serialises x by its own class -- which is Cls -- and parses
+   the result as Cls.  For plain dataclasses (struct or sequence layout, class-level renaming
+   included) the result has the same class and the same field values; its set-field record lists
+   every field, since every field was written (== on instances does not look at the record). *)
+Definition convert_own (t : ty) (x : pyval) : outcome pyval :=
+  match into_data t x with Ok d => tc t d | Reject => Reject | Escape e => Escape e end.
+
+Theorem C06_dataclass_instance_fixed_point : forall h fs v x,
+  plain_class h fs -> tc (TClass h fs) v = Ok x ->
+  exists fields setf, x = VInst (c_name h) fields setf /\
+                      convert_own (TClass h fs) x = Ok (VInst (c_name h) fields (map fst fields)).
+Proof.
+  intros h fs v x P H. destruct (class_roundtrip h fs v x P H) as (fields & setf & d & -> & I & T).
+  exists fields, setf. split; [reflexivity|]. unfold convert_own. now rewrite I.
+Qed.
+Print Assumptions C06_dataclass_instance_fixed_point.
+
+Theorem C06_dataclass_instance_fixed_point_sequence_layout : forall h fs v x,
+  plain_tuple_class h fs -> tc (TClass h fs) v = Ok x ->
+  exists fields setf, x = VInst (c_name h) fields setf /\
+                      convert_own (TClass h fs) x = Ok (VInst (c_name h) fields (map fst fields)).
+Proof.
+  intros h fs v x P H. destruct (class_roundtrip_tuple h fs v x P H) as (fields & setf & d & -> & I & T).
+  exists fields, setf. split; [reflexivity|]. unfold convert_own. now rewrite I.
+Qed.
